@@ -211,6 +211,27 @@ def ordered_candidates_rule(ck, ix):
             ck.check(ordered, "G-DET", f"{q.split('.')[1]}|iteration-over-spelling-set-is-ordered|{hit[0]}", f.loc(x if isinstance(x, ast.For) else it), "candidates taken from the set in sorted order",
                      f"`for ... in {norm(it)}` iterates over a set of spellings: the order of the candidate readings, and with it the reading chosen when a case-insensitive spelling is ambiguous (Ms: megasecond / megasiemens), depends on PYTHONHASHSEED")
     ck.floor("G-DET", n, 1, "iterations over set-valued spelling tables on the lookup path")
+    # the tie-break "the spelling as written first" must compare with the SAME stem whose lower-cased form was looked up
+    # in the index (`sorted(index.get(X.lower(), ()), key=lambda s: (s != X, s))`), not with another string in scope
+    f = ix.func(PR, "GenericPlainRegistry._yield_unit_triplets")
+    for c in [c for c in ast.walk(f.node) if isinstance(c, ast.Call) and isinstance(c.func, ast.Name) and c.func.id == "sorted" and c.args]:
+        m_ = shape.match("_T.get(_X.lower(), *_R)", shape.resolve(c.args[0], f.node)) or shape.match("_T[_X.lower()]", shape.resolve(c.args[0], f.node))
+        keyf = next((k.value for k in c.keywords if k.arg == "key"), None)
+        if m_ is None or keyf is None:
+            continue
+        if isinstance(keyf, ast.Name):
+            keyf = next((d for d in ast.walk(f.node) if isinstance(d, ast.FunctionDef) and d.name == keyf.id), None)
+        if not isinstance(keyf, (ast.Lambda, ast.FunctionDef)) or not keyf.args.args:
+            continue
+        par = keyf.args.args[0].arg
+        others = []
+        for cmp_ in [x for x in ast.walk(keyf) if isinstance(x, ast.Compare) and len(x.ops) == 1 and isinstance(x.ops[0], (ast.Eq, ast.NotEq))]:
+            l_, r_ = norm(cmp_.left), norm(cmp_.comparators[0])
+            if par in (l_, r_):
+                others.append(r_ if l_ == par else l_)
+        for o in others:
+            ck.check(o == m_["_X"], "G-DET", "_yield_unit_triplets|as-written-spelling-is-the-looked-up-stem", f.loc(c), "the sort key prefers the stem that was looked up",
+                     f"the candidates of `{m_['_X']}.lower()` are ordered by comparison with `{o}`, not with `{m_['_X']}`: for prefixed or plural strings the spelling as written no longer comes first (km -> kilomolar)")
 
 def parse_unit_name_rule(ck, ix):
     """parse_unit_name hands `unit_name` and the case-sensitivity flag - the registry's default when the caller gave
